@@ -99,6 +99,8 @@ M = [
   [(I, "        self.guard_count.set(guard_count - 1);\n        if guard_count == 1 {\n            self.epoch.store(Epoch::starting(), Ordering::Release);", "        self.guard_count.set(guard_count - 1);\n        if guard_count <= 2 {\n            self.epoch.store(Epoch::starting(), Ordering::Release);\n        }\n        if guard_count == 1 {")]),
  ("K04", "control", "pin without the re-validation loop (C13 still holds: try_advance re-reads announcements)", ["C13"],
   [(I, "                if new_epoch.value() == self.global().epoch.load(Ordering::Acquire).value() {\n                    break new_epoch;\n                }\n                self.epoch.store(Epoch::starting(), Ordering::Release);", "                break new_epoch;")]),
+ ("M56", "mutant", "pin without the re-validation loop: the participant can announce an epoch two behind the global one (the C14 side of control K04)", ["C14"],
+  [(I, "                if new_epoch.value() == self.global().epoch.load(Ordering::Acquire).value() {\n                    break new_epoch;\n                }\n                self.epoch.store(Epoch::starting(), Ordering::Release);", "                break new_epoch;")]),
  ("M39", "mutant", "Epoch::successor adds two epochs", ["C14"],
   [(E, "            data: self.data.wrapping_add(2),", "            data: self.data.wrapping_add(4),")]),
  ("M40", "mutant", "repin_without_collect publishes an epoch ahead of the global one when it lags", ["C14"],
